@@ -360,4 +360,103 @@ theorem commit_key_nodes {nameOf : J → String} {A : Array (WNode J)} {plan : P
   simp only [two_mul_div] at this
   exact this
 
+/-- the identity root of the root node is not the identity root of another visible node (it could
+only be by a cycle of SHA-256: every other node is a proper sub-expression of the root) -/
+def rootFresh (p : Plan) (an : Array Annot) : Bool :=
+  (List.range (p.size - 1)).all fun i =>
+    match p[i]? with
+    | some (.hidden _) => true
+    | _ =>
+      match commitKey an i, commitKey an (p.size - 1) with
+      | some k, some r => k != r
+      | _, _ => true
+
+theorem rootFresh_spec {nameOf : J → String} {A : Array (WNode J)} {plan : Plan} {an : Array Annot}
+    (F : DecFacts0 nameOf A plan an) (hf : rootFresh plan an = true) (x : Nat) (hx : x < A.size - 1)
+    (hv : hid A x = false) (k : Nat) (hk : commitKey an x = some k) :
+    commitKey an (A.size - 1) ≠ some k := by
+  intro hr
+  unfold rootFresh at hf
+  rw [List.all_eq_true] at hf
+  have := hf x (List.mem_range.mpr (by rw [F.size]; exact hx))
+  obtain ⟨n, hA⟩ : ∃ n, A[x]? = some n := ⟨A[x]'(by omega), Array.getElem?_eq_getElem _⟩
+  obtain ⟨nd, hp, hc⟩ := F.node x n hA
+  have hnh : ∀ y, nd ≠ .hidden y := by
+    refine conv_not_hidden nameOf A n nd hc ?_
+    intro r hr'
+    subst hr'
+    have := hid_false.mp hv
+    rw [hiddenAt_hidden hA] at this; cases this
+  rw [hp, F.size, hk, hr] at this
+  cases nd <;> first | exact absurd rfl (hnh _) | (simp at this)
+
+/-- two lists that both end with `r`, contain `r` nowhere else and agree wherever both have an
+element, are equal -/
+theorem eq_of_zip_last (r : Nat) : ∀ (a b : List Nat), (∀ x ∈ a, x ≠ r) → (∀ y ∈ b, y ≠ r) →
+    ((a ++ [r]).zip (b ++ [r])).all (fun p => p.1 == p.2) = true → a = b := by
+  intro a
+  induction a with
+  | nil =>
+    intro b _ hb h
+    cases b with
+    | nil => rfl
+    | cons y b' =>
+      simp only [List.nil_append, List.cons_append, List.zip_cons_cons, List.all_cons, Bool.and_eq_true,
+        beq_iff_eq] at h
+      exact absurd h.1.symm (hb y (by simp))
+  | cons x a' ih =>
+    intro b ha hb h
+    cases b with
+    | nil =>
+      simp only [List.nil_append, List.cons_append, List.zip_cons_cons, List.all_cons, Bool.and_eq_true,
+        beq_iff_eq] at h
+      exact absurd h.1 (ha x (by simp))
+    | cons y b' =>
+      simp only [List.cons_append, List.zip_cons_cons, List.all_cons, Bool.and_eq_true, beq_iff_eq] at h
+      rw [h.1, ih b' (fun z hz => ha z (by simp [hz])) (fun z hz => hb z (by simp [hz])) h.2]
+
+/-- **what the sharing check establishes**: if it passes and the root's identity root is fresh, the
+identity-root walk yields exactly the nodes of the pointer walk — the visible nodes in index order -/
+theorem commit_key_eq_ptr {nameOf : J → String} {A : Array (WNode J)} {plan : Plan} {an : Array Annot}
+    (F : DecFacts0 nameOf A plan an) (hnb : noBinDisc plan = true) (hw : WellIdx (shapes A))
+    (hne : 0 < A.size) (hroot : hiddenAt A (A.size - 1) = none) (hc : canonicalOk A = true)
+    (hf : rootFresh plan an = true) (hsh : sharedOk plan an = true) :
+    (walk (commitChildren plan) (commitKey an) (plan.size + 1) (plan.size - 1)
+      ⟨#[], [], 0⟩).1.outs.toList.map (·.node) = (List.range A.size).filter (fun c => !hid A c) := by
+  rw [← commit_ptr_nodes F hnb hw hne hroot hc]
+  unfold sharedOk at hsh
+  rw [F.size] at hsh ⊢
+  -- both walks end with the root, which occurs nowhere else
+  let P : Nat → Prop := fun x => x < A.size - 1 ∧ hid A x = false
+  have hcl : ∀ t, P t → ∀ c ∈ commitChildren plan t, P c := by
+    intro t ht c hcm
+    have h := commitChildren_wire F hnb t (by have := ht.1; omega)
+    rw [h.1] at hcm
+    obtain ⟨h1, h2⟩ := List.mem_filter.mp hcm
+    exact ⟨by have := h.2.1 c h1; have := ht.1; omega, by simpa using h2⟩
+  have hch : ∀ c ∈ commitChildren plan (A.size - 1), P c := by
+    intro c hcm
+    have h := commitChildren_wire F hnb (A.size - 1) (by omega)
+    rw [h.1] at hcm
+    obtain ⟨h1, h2⟩ := List.mem_filter.mp hcm
+    exact ⟨h.2.1 c h1, by simpa using h2⟩
+  obtain ⟨pre1, l1, e1, hl1, hp1⟩ := walk_root_last (commitChildren plan) (commitKey an) P hcl A.size
+    (A.size - 1) hch (fun x hx k hk => rootFresh_spec F hf x hx.1 hx.2 k hk)
+  obtain ⟨pre2, l2, e2, hl2, hp2⟩ := walk_root_last (commitChildren plan) (fun i => some i) P hcl A.size
+    (A.size - 1) hch (fun x hx k hk e => by cases hk; cases e; exact absurd hx.1 (by omega))
+  rw [e1, e2] at hsh ⊢
+  have hz : ((pre1.map (·.node) ++ [A.size - 1]).zip (pre2.map (·.node) ++ [A.size - 1])).all
+      (fun p => p.1 == p.2) = true := by
+    have e : ∀ (u v : List WOut), ((u.map (·.node)).zip (v.map (·.node))).all (fun p => p.1 == p.2) =
+        (u.zip v).all (fun x => x.1.node == x.2.node) := by
+      intro u v
+      rw [List.zip_map, List.all_map]; rfl
+    have := e (pre1 ++ [l1]) (pre2 ++ [l2])
+    rw [hsh] at this
+    simpa [hl1, hl2] using this
+  have := eq_of_zip_last (A.size - 1) (pre1.map (·.node)) (pre2.map (·.node))
+    (by intro x hx; obtain ⟨o, ho, rfl⟩ := List.mem_map.mp hx; have := (hp1 o ho).1; omega)
+    (by intro x hx; obtain ⟨o, ho, rfl⟩ := List.mem_map.mp hx; have := (hp2 o ho).1; omega) hz
+  simp [this, hl1, hl2]
+
 end Prog
